@@ -450,13 +450,19 @@ def _scenarios(pid, tier, rng):
         return (fam_manager(rng, pid, k(350, 1700)) + fam_disorder(rng, pid, k(40, 200))
                 + fam_aware(rng, pid, k(20, 150)))
     if pid == "C12":
-        return fam_manager(rng, pid, k(420, 2000), fills=(True,), twins=("batch",))
+        scs = fam_manager(rng, pid, k(420, 2000), fills=(True,), twins=("batch",))
+        for sc in scs:
+            # "the outcome is the same for every append schedule": the filled series with everything on it
+            sc["clause_props"] = dict(sc.get("clause_props", {}), batch=["C12", "C01"])
+        return scs
     if pid == "C11":
         return (fam_manager(rng, pid, k(220, 1400), has=(True,), twins=("batch",))
                 + fam_manager(rng, pid, k(60, 300), has=(True,), twins=("batch",), kinds=("EMA", "RSI", "ATR", "KC"),
                               tag="b")
                 # with a lifespan and no timeframe the recurrence still has to be that of the whole stream
-                + fam_manager(rng, pid, k(60, 300), has=(True,), lifes=(3, 5, 8), units=("N",), twins=(), tag="c"))
+                + fam_manager(rng, pid, k(60, 300), has=(True,), lifes=(3, 5, 8), units=("N",), twins=(), tag="c")
+                # Heikin-Ashi selected on a Hexital whose members sit on several timeframes of their own
+                + fam_hexital(rng, pid, k(30, 200), twins=(), force_ha=True))
     if pid == "C15":
         return (fam_manager(rng, pid, k(160, 1000), lifes=(0, 1, 2, 3, 5, 8, 0.5), fills=(False, True))
                 + fam_manager(rng, pid, k(160, 1000), lifes=(6, 8, 12, 20), twins=("untrimmed",),
@@ -715,10 +721,28 @@ def fam_interference(rng, pid, count):
             tf = ladder[0]
         names = [c.build(standalone=False).name for c in cfgs]
         pre, chunks = compositions(rng, n - 6, (0, 2, 5, 9), 5)
+        hexcfg = {}
+        if t % 3 == 2 and rng.random() < 0.6:
+            # Hexital-level settings that shape the default candles (a lifespan shorter than what is given at
+            # construction; an own timeframe with gap filling): what one member starts from must not depend on
+            # which other members are registered with it, or on the form they are given in
+            from streams import tf_seconds as _tfs
+
+            biggest = max([_tfs(c.timeframe) for c in cfgs if c.timeframe] + [60])
+            pre = rng.choice([12, 15, n - 6])
+            chunks = compositions(rng, n - 6 - pre, (0,), 5)[1] if n - 6 - pre > 0 else []
+            if rng.random() < 0.5:
+                hexcfg = {"lifespan": "half"}       # resolved below, once the stream is known
+            else:
+                hexcfg = {"timeframe": tf, "fill": True}
+            mixed_forms = [rng.choice(["dict", "settings", "obj"])] + ["obj"] * (len(cfgs) - 1)
+            rng.shuffle(mixed_forms)
         prog = prog_for(pre, chunks)
         victim = rng.choice(names)
         a = n - 6
-        for op in rng.sample(["purge", "recalculate", "purge", "recalculate"], 3):
+        # (under a Hexital-level lifespan a recalculation works on the trimmed list and legitimately differs
+        #  from readings computed while the history was still there: only presence, form and order vary there)
+        for op in ([] if hexcfg.get("lifespan") else rng.sample(["purge", "recalculate", "purge", "recalculate"], 3)):
             prog.append((op, victim))
             prog.append(("append", a + 1, a + 1))
             a += 1
@@ -726,13 +750,17 @@ def fam_interference(rng, pid, count):
         if removed:
             prog.append(("remove", victim))
         prog.append(("append", a + 1, n))
+        stream_ = make_stream(rng, n, "mixed", tf=tf, regular=(tf_regular(rng, tf) if tf and t % 3 == 2 else None))
+        if hexcfg.get("lifespan") == "half":
+            # about half of what is given at construction survives the Hexital's own trim
+            span = stream_[pre - 1][0] - stream_[0][0]
+            hexcfg = {"lifespan": timedelta(seconds=max(1, span // 2))}
         out.append({"id": f"{pid}/pair/{'+'.join(names)}/{t}", "fam": "interf", "obj": "hex", "inds": cfgs,
                     "names_fixed": True,
-                    "hex": {}, "stream": make_stream(rng, n, "mixed", tf=tf,
-                                                     regular=(tf_regular(rng, tf) if tf and t % 3 == 2 else None)),
+                    "hex": hexcfg, "stream": stream_,
                     "prog": prog,
                     "twins": ["alone", "reorder"] if not removed else ["alone"],
-                    "member_forms": ["obj"] * len(cfgs),
+                    "member_forms": (mixed_forms if hexcfg else ["obj"] * len(cfgs)),
                     "clause_props": {"exc": ["C13"], "alone": ["C13"], "reorder": ["C13"], "stage": ["C13"],
                                      "def": ["C13"], "interfere": ["C13"], "value": ["C13"], "gap": ["C13"]}})
     return out
@@ -951,7 +979,7 @@ def fam_reads(rng, pid, count, forms=("candle",), touches=True):
     return out
 
 
-def fam_hexital(rng, pid, count, twins=("standalone",)):
+def fam_hexital(rng, pid, count, twins=("standalone",), force_ha=False):
     """Hexital members against standalone twins.  Timeframes inside one Hexital stay within a
     factor of 6 of each other and the stream is spaced on the smallest, so every timeframe
     sees several buckets and gap filling stays small."""
@@ -978,7 +1006,9 @@ def fam_hexital(rng, pid, count, twins=("standalone",)):
         for c in cfgs:
             c.extra = dict(c.extra, _tf_form=rng.choice(["upper", "upper", "lower", "enum"]))
         fill = rng.random() < 0.3          # also without a Hexital timeframe: the members inherit it
-        ha = rng.random() < 0.2 and not fill
+        if force_ha:
+            fill = False
+        ha = force_ha or (rng.random() < 0.2 and not fill)
         tfs = [c.timeframe for c in cfgs] + [base_tf]
         secs = sorted(tf_seconds(x) for x in tfs if x)
         biggest = secs[-1] if secs else 60
